@@ -110,6 +110,7 @@ pub fn deviations_ex(cfg: &AttackCfg, r: &RefRun, seed: u64, also_live: bool) ->
                 for j in idxs(len, &mut rng) {
                     edits.push((tag("check-bit"), MutSpec::At { path: vec![j, 0], op: LeafOp::FlipBool }));
                     edits.push((tag("check-mac"), MutSpec::At { path: vec![j, 1], op: LeafOp::XorU128(vec![1 << rng.random_range(0..8)]) }));
+                    edits.push((tag("check-bit+mac"), MutSpec::Multi(vec![(vec![j, 0], LeafOp::FlipBool), (vec![j, 1], LeafOp::XorU128(vec![1 << rng.random_range(0..8)]))])));
                 }
             }
             "fashare comm" => {
@@ -158,12 +159,14 @@ pub fn deviations_ex(cfg: &AttackCfg, r: &RefRun, seed: u64, also_live: bool) ->
                     let mm = rng.random_range(0..4);
                     edits.push((tag("d-bit"), MutSpec::At { path: vec![j, 0, mm], op: LeafOp::FlipBool }));
                     edits.push((tag("d-mac"), MutSpec::At { path: vec![j, 1, mm], op: LeafOp::XorU128(vec![1 << rng.random_range(0..8)]) }));
+                    edits.push((tag("d-bits-all"), MutSpec::Multi((0..4).map(|m| (vec![j, 0, m], LeafOp::FlipBool)).collect())));
                 }
             }
             "faand" => {
                 for j in idxs(len, &mut rng) {
                     edits.push((tag("beaver-d"), MutSpec::At { path: vec![j, 0], op: LeafOp::FlipBool }));
                     edits.push((tag("beaver-e"), MutSpec::At { path: vec![j, 1], op: LeafOp::FlipBool }));
+                    edits.push((tag("beaver-d+e"), MutSpec::Multi(vec![(vec![j, 0], LeafOp::FlipBool), (vec![j, 1], LeafOp::FlipBool)])));
                     edits.push((tag("beaver-d-mac"), MutSpec::At { path: vec![j, 2], op: LeafOp::XorU128(vec![1 << rng.random_range(0..8)]) }));
                     edits.push((tag("beaver-e-mac"), MutSpec::At { path: vec![j, 3], op: LeafOp::XorU128(vec![1 << rng.random_range(0..8)]) }));
                 }
@@ -212,7 +215,7 @@ pub fn deviations_ex(cfg: &AttackCfg, r: &RefRun, seed: u64, also_live: bool) ->
             let ver = &r.run.transcript[ss[vi].tr];
             let comm = &r.run.transcript[ss[ci].tr];
             let (Ok(V::Vec(mut vel, vl)), Ok(V::Vec(mut cel, cl))) = (schema::decode_msg("fashare ver", &ver.data), schema::decode_msg("fashare comm", &comm.data)) else { continue };
-            for (what, byte) in [("claimed-bit+cm", 0usize), ("mac+cm", 1 + rng.random_range(0..16 * (n - 1)))] {
+            for (what, byte, mask) in [("claimed-bit+cm", 0usize, 1u8), ("mac+cm", 1 + rng.random_range(0..16 * (n - 1)), 1u8), ("noncanonical-bit+cm", 0usize, 2u8)] {
                 let round = rng.random_range(0..vel.len().max(1));
                 let (mut vel2, mut cel2) = (vel.clone(), cel.clone());
                 let mut dm: Vec<u8> = match &vel2[round] {
@@ -222,7 +225,7 @@ pub fn deviations_ex(cfg: &AttackCfg, r: &RefRun, seed: u64, also_live: bool) ->
                 if byte >= dm.len() {
                     continue;
                 }
-                dm[byte] ^= 1;
+                dm[byte] ^= mask;
                 let h = blake3::hash(&dm);
                 vel2[round] = V::Vec(dm.iter().map(|b| V::U8(*b)).collect(), dm.len() as u64);
                 if let V::Tup(fields) = &mut cel2[round] {
